@@ -757,7 +757,17 @@ func (g *Gen) switchStmt(contOK bool) *Switch {
 			}
 		}
 		lastCase := i == n-1
-		if g.chance(g.P.PEmptyCase) {
+		if len(g.P.PoryKeys) > 0 && g.P.WPory > 0 && g.R.IntN(10) == 0 {
+			// the whole body is one poryswitch whose cases are (mostly) empty: when the selected case is empty the
+			// switch case has no body and shares the next one's
+			ps := g.poryStmt(false)
+			for _, pc := range ps.Cases {
+				if pc.Brace && g.R.IntN(3) != 0 {
+					pc.Body = &Block{ID: g.Prog.NewID()}
+				}
+			}
+			c.Body = &Block{ID: g.Prog.NewID(), Stmts: []Stmt{ps}}
+		} else if g.chance(g.P.PEmptyCase) {
 			c.Body = &Block{ID: g.Prog.NewID()}
 		} else {
 			saved := g.P.PEmptyBody
@@ -969,7 +979,7 @@ func (g *Gen) MartStmt() *MartItem {
 	return m
 }
 
-var mapScriptTypes = []string{"MAP_SCRIPT_ON_LOAD", "MAP_SCRIPT_ON_TRANSITION", "MAP_SCRIPT_ON_RESUME", "MAP_SCRIPT_ON_FRAME_TABLE", "MAP_SCRIPT_ON_WARP_INTO_MAP_TABLE", "MAP_SCRIPT_ON_DIVE_WARP", "MAP_SCRIPT_ON_RETURN_TO_FIELD", "MAP_SCRIPT_X"}
+var mapScriptTypes = []string{"MAP_SCRIPT_ON_LOAD", "MAP_SCRIPT_ON_TRANSITION", "MAP_SCRIPT_ON_RESUME", "MAP_SCRIPT_ON_FRAME_TABLE", "MAP_SCRIPT_ON_WARP_INTO_MAP_TABLE", "MAP_SCRIPT_ON_DIVE_WARP", "MAP_SCRIPT_ON_RETURN_TO_FIELD", "MAP_SCRIPT_X", "MAP_SCRIPT_ON_WARP_INTO_MAP", "MAP_SCRIPT_ON_FRAME"}
 
 // MapScriptsStmt generates a mapscripts statement.
 func (g *Gen) MapScriptsStmt() *MapScripts {
